@@ -196,6 +196,18 @@ CHECKS = {
                   'attribute carries which schema field) are trusted; leaf cells have concrete depth 0',
              technique='contracts (field-by-field postconditions generated from block.tlb) on the real deserialize functions, symbolic execution over all paths per shape, z3 (LIA); finite shape split partly sampled, hence level other',
              design_ref='DESIGN.md §5 C16'),
+ 'C20': dict(category='other',
+             text='Thin deductive layer over ASSUMED primitives: the real AdnlChannel.__init__/encrypt/decrypt, '
+                  'create_aes_ctr_sipher_from_key_n_data and get_key_aes_id run on symbolic 32-byte secrets/ids in all three orderings of '
+                  'the ids: A.enc_key == B.dec_key, A.dec_key == B.enc_key, the key id sent is the one the peer expects, the packet is key id '
+                  '++ SHA256(x) ++ ciphertext, AES key = k[0:16]++h[16:32] and counter block = h[0:4]++k[20:32] are the SAME on the decrypting '
+                  'side (so the peer recovers x, given AES-CTR inverse).  Everything that is a property of the libraries (X25519 '
+                  'commutativity, AES-CTR, Ed25519 signatures verifying / failing for other message, key, altered signature; mnemonic '
+                  'validity; deterministic key derivation) is ASSUMED (T6) and only SAMPLED natively with the real libraries: bounded.  '
+                  'Termination of mnemonic_new is probabilistic and not claimed.',
+             note=T_BASE + '; T6: X25519 commutativity, AES-CTR inverse, Ed25519 unforgeability are assumptions about dependencies; the bounded parts are labelled bounded and never counted as proved',
+             technique='contracts on the real channel functions with the cryptographic primitives replaced by assumed contracts, symbolic execution over all paths, z3; native sampling with the real libraries (bounded) for signatures and mnemonics',
+             design_ref='DESIGN.md §5 C20'),
  'C06': dict(category='proof',
              text='Per-operation two-sided contracts proved on the real Builder/Slice/TvmBitarray code for symbolic values at a '
                   'symbolic fill level p (opaque prefix) and with an opaque rest R of symbolic length: store_X writes exactly the TL-B '
